@@ -355,6 +355,9 @@ def body_real_server(chunk):
     from xv.core import pick, untraced
     chunk = pick(chunk, 2)
     with untraced():
+        from xv.core import real_stack
+        if not real_stack("aiohttp"):
+            return (True, "real-unavailable")
         import json
         import os
         import subprocess
